@@ -43,8 +43,9 @@ def run_scenario(task):
     weighted = task["weighted"]
     tmin = task.get("tmin", 0)
     horizon = task.get("horizon")
-    tau = tau_n * RATE_UNIT
-    gam = gam_n * RATE_UNIT
+    scale = task.get("scale", 1.0)     # a power of two: very slow / very fast epidemics, float arithmetic stays exact
+    tau = tau_n * RATE_UNIT * scale
+    gam = gam_n * RATE_UNIT * scale
     G = build_graph(n, w, g)
     nodes = list(range(1, n + 1))
     I0 = [u for u in nodes if st0[u - 1] == "I"]
@@ -149,7 +150,7 @@ def run_scenario(task):
         for r in recs:
             r["prob"] = r["leaf"].prob
         nosrc = any(r["nosrc"] for r in recs)
-        probs, stats = kernel.compare(recs, st0, succ_nosrc if nosrc else succ, RATE_UNIT, horizon=horizon)
+        probs, stats = kernel.compare(recs, st0, succ_nosrc if nosrc else succ, RATE_UNIT * scale, horizon=horizon)
         for p in probs:
             p["cls"] = wcls
             problems.append(p)
